@@ -9,9 +9,9 @@ EXTRA = {"C06-1": ["C05"], "C03-1": ["C04"], "C05-1": ["C06"], "C02-4": ["C04"],
 
 
 def collect():
-    for m in sorted(glob.glob("/tmp/mut/C*/_mutation")) + sorted(glob.glob("/tmp/mutB/C*/_mutation")) + sorted(glob.glob("/tmp/mutC/C*/_mutation")):
+    for m in sorted(glob.glob("/tmp/mut/C*/_mutation")) + sorted(glob.glob("/tmp/mutB/C*/_mutation")) + sorted(glob.glob("/tmp/mutC/C*/_mutation")) + sorted(glob.glob("/tmp/mutD/C*/_mutation")):
         pid = m.split("/")[3]
-        off = 2 if m.startswith("/tmp/mutB/") else 4 if m.startswith("/tmp/mutC/") else 0   # later rounds of agents: ids <Cxx>-3/-4, -5/-6
+        off = 2 if m.startswith("/tmp/mutB/") else 4 if m.startswith(("/tmp/mutC/", "/tmp/mutD/")) else 0   # later rounds of agents: ids <Cxx>-3/-4, -5/-6
         for k in (1, 2):
             cf = f"{m}/confirm{k}.json"
             if not os.path.exists(cf):
